@@ -29,7 +29,23 @@ type RT struct {
 
 var rtCache = map[string]*RT{}
 
+// CurGOOS / CurGOARCH select the build configuration used by rules that do
+// not ask for a specific one (the thorough tier re-runs a property's rules
+// under a second configuration; obligations are merged by key, worst status wins).
+var CurGOOS, CurGOARCH string
+
+// IntBits is the width of int under the current configuration.
+func IntBits() int {
+	if CurGOARCH == "386" || CurGOARCH == "arm" {
+		return 32
+	}
+	return 64
+}
+
 func LoadRT(ctx *core.Ctx, goos, goarch string) *RT {
+	if goos == "" && goarch == "" {
+		goos, goarch = CurGOOS, CurGOARCH
+	}
 	key := goos + "/" + goarch
 	if r, ok := rtCache[key]; ok {
 		return r
